@@ -1,6 +1,6 @@
 """tables for C11 (src/drivers/Socket.py, src/drivers/__init__.py, src/utils/str.py)"""
 import ast
-from gen_tables import table, tree, find_def, need, clist, cN
+from gen_tables import table, tree, find_def, need, clist, cN, handler_names, EXN
 
 
 def _int_compares(fn, op):
@@ -21,6 +21,21 @@ def gen_T11():
     gt = _int_compares(h, ast.Gt)
     need(len(ne) == 1 and ne[0][0] == 'e.args[0]', '_handleSocketError: expected one `e.args[0] != <int>`, got %r' % (ne,))
     need(len(gt) == 1 and gt[0][0] == 'self.eagains', '_handleSocketError: expected one `self.eagains > <int>`, got %r' % (gt,))
+    # the out-buffer holds BYTES (repair of C11.F11): initialised to a bytes constant, sent as it is, sliced by
+    # the count send() returned
+    init = find_def(t, '__init__', 'SocketDriver')
+    obs = [n.value for n in ast.walk(init) if isinstance(n, ast.Assign) and len(n.targets) == 1
+           and ast.unparse(n.targets[0]) == 'self.outbuffer']
+    need(len(obs) == 1 and isinstance(obs[0], ast.Constant) and isinstance(obs[0].value, bytes) and obs[0].value == b'',
+         "SocketDriver.__init__: expected `self.outbuffer = b''` (the model's out-buffer is bytes), got %r"
+         % ([ast.unparse(o) for o in obs],))
+    sm = find_def(t, '_sendIfMsgs', 'SocketDriver')
+    sends = [ast.unparse(n.args[0]) for n in ast.walk(sm)
+             if isinstance(n, ast.Call) and ast.unparse(n.func) == 'self.conn.send' and len(n.args) == 1]
+    need(sends == ['self.outbuffer'], '_sendIfMsgs: expected exactly one self.conn.send(self.outbuffer), got %r' % (sends,))
+    slices = [ast.unparse(n.value) for n in ast.walk(sm) if isinstance(n, ast.Assign) and len(n.targets) == 1
+              and ast.unparse(n.targets[0]) == 'self.outbuffer']
+    need(slices == ['self.outbuffer[sent:]'], '_sendIfMsgs: expected `self.outbuffer = self.outbuffer[sent:]`, got %r' % (slices,))
     # _read: the line separator of the split and the recv size
     r = find_def(t, '_read', 'SocketDriver')
     seps = [n.args[0].value for n in ast.walk(r)
@@ -32,6 +47,21 @@ def gen_T11():
              if isinstance(n, ast.Call) and isinstance(n.func, ast.Attribute) and n.func.attr == 'recv'
              and len(n.args) == 1 and isinstance(n.args[0], ast.Constant)]
     need(len(recvs) == 1 and type(recvs[0]) is int, '_read: expected one recv(<int>) call, got %r' % (recvs,))
+    # _read: the try around drivers.parseMsg(line) inside the for loop (repair of C07.F4): which exceptions make
+    # the loop skip the line (`continue`) instead of leaving _read
+    trys = [n for n in ast.walk(r) if isinstance(n, ast.Try)
+            and any(isinstance(c, ast.Call) and ast.unparse(c.func) == 'drivers.parseMsg' for b in n.body for c in ast.walk(b))
+            and len(n.body) == 1]
+    need(len(trys) == 1, '_read: expected exactly one try whose body is the drivers.parseMsg(line) statement, got %d' % len(trys))
+    tr = trys[0]
+    need(len(tr.handlers) == 1 and not tr.orelse and not tr.finalbody, '_read: try around parseMsg: expected one except clause only')
+    need(isinstance(tr.handlers[0].body[-1], ast.Continue), '_read: the except clause around parseMsg no longer ends in `continue`')
+    loops = [n for n in ast.walk(r) if isinstance(n, ast.For) and tr in n.body]
+    need(len(loops) == 1 and ast.unparse(loops[0].iter) == 'lines', '_read: the try around parseMsg is not directly in `for line in lines`')
+    hn = handler_names(tr.handlers[0])
+    cmap = {'ircmsgs.MalformedIrcMsg': 'MalformedIrcMsg', 'MalformedIrcMsg': 'MalformedIrcMsg'}
+    cmap.update(EXN)
+    need(all(h in cmap for h in hn), '_read: except clause around parseMsg catches something the model cannot name: %r' % (hn,))
     # decode_raw_line: the charade branch must be off (module absent), else decoding is a third-party guess
     u = tree('src/utils/str.py')
     imports = [n for n in ast.walk(u) if isinstance(n, ast.ImportFrom) and n.module and 'universaldetector' in n.module]
@@ -54,5 +84,7 @@ def gen_T11():
     out += 'Definition EAGAIN_MAX : N := %s.\n' % cN(gt[0][1])
     out += 'Definition LINE_SEP : N := %s.\n' % cN(seps[0][0])
     out += 'Definition RECV_SIZE : N := %s.\n' % cN(recvs[0])
+    out += 'Definition OUTBUFFER_IS_BYTES : bool := true.\n'
+    out += 'Require Import Base.Wire.\nDefinition READ_CATCHES : list exn := %s.\n' % clist(cmap[h] for h in hn)
     out += 'Definition WHITESPACE : list N := %s.\n' % clist(cN(c) for c in ws)
     return 'src/drivers/Socket.py src/drivers/__init__.py src/utils/str.py', out
